@@ -287,7 +287,25 @@ impl PyOpeningHours {
 
     #[pyo3()]
     fn __repr__(&self) -> String {
-        format!("OpeningHours({:?})", self.inner.to_string())
+        // Escape the expression as a Python string literal (Rust's escapes such as `\u{301}`
+        // are not valid in Python).
+        let mut escaped = String::new();
+
+        for c in self.inner.to_string().chars() {
+            match c {
+                '"' | '\\' => {
+                    escaped.push('\\');
+                    escaped.push(c);
+                }
+                '\n' => escaped.push_str("\\n"),
+                '\r' => escaped.push_str("\\r"),
+                '\t' => escaped.push_str("\\t"),
+                c if c.is_control() => escaped.push_str(&format!("\\x{:02x}", u32::from(c))),
+                c => escaped.push(c),
+            }
+        }
+
+        format!("OpeningHours(\"{escaped}\")")
     }
 }
 
